@@ -71,7 +71,7 @@ def check(tier, replay_path=None):
     mc = tlc.check_model(d, 'MC_LoadIO', 'mc.cfg', must_cover=('MCAccept', 'RejectInput', 'Build'))
     if replay_path:
         obj = common.read_json(replay_path)
-        runs = [{'kind': 'replay', 'texts': obj['texts'], 'build_every': obj.get('build_every', 1)}]
+        runs = [{'kind': 'replay', 'texts': obj.get('texts', ['']), 'build_every': obj.get('build_every', 1)}]
     else:
         runs = build_runs(tier, seed)
     traces = replay.replay('loadio', {}, runs, timeout=3000)
@@ -96,10 +96,19 @@ def check(tier, replay_path=None):
             sig = {'op': e['op'], 'res': e['res'], 'clause': v.clause, 'kind': r['kind'].split(':')[0]}
             rep.failure(sig, {'texts': r['texts'][:e['k'] + 1], 'build_every': r.get('build_every', 1), 'step': v.step,
                               'clause': v.clause, 'event': e, 'spec_expected': repr(v.expected)})
+    hooks = None
+    from .. import hooktrace
+    if replay_path and obj.get('source') == 'hooks':
+        hooktrace.check_loader(rep, tier)
+        return rep.finish()
+    if not replay_path:
+        # every input() / build_metamodel() call made while the repository's own tests run on the hooked library
+        hooks = hooktrace.check_loader(rep, tier)
     rc = rep.finish()
     if replay_path:
         return rc
-    cov = {'states': mc.distinct, 'transitions': mc.generated, 'traces_validated_against_impl': accepted,
+    accepted += hooks['traces_accepted']
+    cov = {'repository_tests_under_hooks': hooks, 'states': mc.distinct, 'transitions': mc.generated, 'traces_validated_against_impl': accepted,
            'evaluations': st['steps'], 'distinct_nontrivial': len(distinct),
            'rule': 'one evaluation = one input() or build_metamodel() call on a real loader (5 s budget per input); a run is a '
                    'history of texts on one loader next to a twin loader that only receives the accepted texts; TLC checks the '
